@@ -9,7 +9,7 @@ from ..cfg import calls_at
 from ..core import Checker
 from ..loader import Func, norm, walk_expr, walk_own
 from ..prov import refers_to_call, call_name, expand, get_arg, scope_of
-from .transfer_common import TransferModel, build_model
+from .transfer_common import TransferModel, build_model, is_dir_ident
 
 
 def names(e: ast.AST) -> Set[str]:
@@ -153,8 +153,7 @@ def reported_rule(ck: Checker, m: TransferModel, rule: str):
     for x in m.body:
         for c in calls_at(x):
             if is_method_call(c, "add", "update") and norm(c.func.value) == m.failed and c.args:
-                t = norm(c.args[0])
-                if t in (f"{m.dir_obj}.hash_info", loopvar, f"[{m.dir_obj}.hash_info]", f"[{loopvar}]", f"{{{m.dir_obj}.hash_info}}"):
+                if is_dir_ident(ck, m, c.args[0]):
                     rec_nodes.add(x.id)
     dir_calls = [norm(c) for _n, c in m.dir_add]
 
@@ -243,6 +242,12 @@ def _check_index(ck: Checker, m: TransferModel, success_edge) -> None:
                     if isinstance(alt, (ast.SetComp, ast.ListComp, ast.GeneratorExp)):
                         gen = alt.generators[0]
                         if norm(gen.iter) == lv and not gen.ifs and norm(alt.elt).endswith(".value"):
+                            a1ok = True
+                if isinstance(a1, ast.Name):
+                    from ..an import collection_builds
+
+                    for b in collection_builds(g, move.node, a1.id):
+                        if norm(b.src) == lv and b.unconditional and norm(b.elt).endswith(".value") and h.id in b.node.loops:
                             a1ok = True
                 ok = a0ok and a1ok
         ck.require(ok, "C04.index", move, x,
